@@ -28,6 +28,7 @@ const (
 	shMap   // T is a map-kinded type
 	shNum   // T is an integer-kinded type
 	shByte  // T is a uint8-kinded type
+	shPval  // T is P itself: every method has a pointer receiver, so P lacks the marshal interfaces (only *P has them) and is decoded through &value
 	numShapes
 )
 
@@ -42,7 +43,7 @@ type Both interface {
 	json.Unmarshaler
 }
 
-var shapeNames = [...]string{"V(value marshalers, pointer unmarshalers)", "*P(pointer type)", "OnlyM", "OnlyU", "None", "Both(interface-typed T holding *P or nil)", "*V(pointer to value-receiver type)", "Str(string kind)", "Bytes(slice kind)", "Map(map kind)", "Num(integer kind)", "Byte(uint8 kind)"}
+var shapeNames = [...]string{"V(value marshalers, pointer unmarshalers)", "*P(pointer type)", "OnlyM", "OnlyU", "None", "Both(interface-typed T holding *P or nil)", "*V(pointer to value-receiver type)", "Str(string kind)", "Bytes(slice kind)", "Map(map kind)", "Num(integer kind)", "Byte(uint8 kind)", "P(value type whose methods all have pointer receivers)"}
 var helperNames = [...]string{"MarshalText", "UnmarshalText", "MarshalBinary", "UnmarshalBinary", "MarshalJSON", "UnmarshalJSON"}
 
 // listSpec is one helper invocation.
@@ -64,7 +65,7 @@ func (ls listSpec) hasInterface() bool {
 		return true
 	case shOnlyM:
 		return ls.dir == dirMarshal
-	case shOnlyU:
+	case shOnlyU, shPval:
 		return ls.dir == dirUnmarshal
 	}
 	return false
@@ -112,10 +113,10 @@ func resultNonEmpty(dir int, c caseSpec) bool {
 // predicate is unmet or met with a non-empty result, or (no error expected) the call fails
 // or its data/value differs.
 func unsatisfied(dir int, c caseSpec) bool {
-	if c.before == hError || c.before == hPanic {
+	if c.before == hError || c.before == hPanic || c.before == hPanicBadError {
 		return true
 	}
-	if c.after == hError || c.after == hPanic {
+	if c.after == hError || c.after == hPanic || c.after == hPanicBadError {
 		return true
 	}
 	if c.pred != pNone {
@@ -162,6 +163,13 @@ func hook[C any](l *listRun, i, kind int, phase string) func(int, *C) error {
 			l.hookIndex(phase, i, idx)
 			l.seen(phase, i)
 			return fmt.Errorf("scripted %s hook failure %d", phase, i)
+		}
+	}
+	if kind == hPanicBadError {
+		return func(idx int, _ *C) error {
+			l.hookIndex(phase, i, idx)
+			l.seen(phase, i)
+			panic((*badErr)(nil))
 		}
 	}
 	return func(idx int, _ *C) error {
@@ -345,6 +353,9 @@ func runEnc[T any](l *listRun, ls listSpec, mk func(i int, c caseSpec) T) {
 		if c.emptyData && s == "" {
 			return nil // the Binary helper compares slices: no data is a nil slice
 		}
+		if c.nilData && ls.dir == dirUnmarshal {
+			return nil // the case lists no input at all
+		}
 		return []byte(s)
 	}
 	listedValue := func(i int, c caseSpec) T {
@@ -471,6 +482,8 @@ func execList(ls listSpec, keepMsgs bool) (l *listRun, escaped interface{}) {
 			runEnc(l, ls, func(i int, c caseSpec) Num { return Num(i + 1) })
 		case shByte:
 			runEnc(l, ls, func(i int, c caseSpec) Byte { return Byte(i + 1) })
+		case shPval:
+			runEnc(l, ls, func(i int, c caseSpec) P { return P{i + 1, c.payload} })
 		case shPV:
 			runEnc(l, ls, func(i int, c caseSpec) *V {
 				if c.beh == bNilReceiver || (c.nilValue && ls.dir == dirUnmarshal) {
@@ -517,6 +530,19 @@ func judge(ls listSpec, l *listRun, escaped interface{}) *core.Violation {
 	// L3 containment
 	if escaped != nil {
 		return mk("L3-panic-escaped", "escaped", fmt.Sprintf("a panic escaped the helper: %v", escaped))
+	}
+	if len(ls.cases) > 0 && ls.cases[0].nilIface {
+		// the first case lists a nil interface value: it can neither be marshaled nor decoded
+		// into, so the list has an unsatisfied applicable case and some failure is due; where
+		// the helper reports it (type check or call) is its own business
+		total := l.listFail
+		for _, f := range l.failures {
+			total += f
+		}
+		if total == 0 {
+			return mk("L2-missed-failure", "first-case-nil-interface", "the first case lists a nil interface value and is applicable, but no test failure was reported")
+		}
+		return nil
 	}
 	if !ls.hasInterface() {
 		total := l.listFail
@@ -603,6 +629,12 @@ func normalise(ls *listSpec) {
 		if c.other && ls.shape != shIface {
 			c.other = false
 		}
+		if c.nilData && (ls.enc != kBinary || ls.dir != dirUnmarshal || c.nilValue || c.nilIface || c.adjust || c.wildcard || c.nilExpect || (c.before != hAbsent && c.before != hPass)) {
+			c.nilData = false
+		}
+		if c.nilData {
+			c.before = hPass // announces the case: empty input carries no case number
+		}
 		if c.emptyData && (ls.dir != dirMarshal || c.pred != pNone || c.adjust || c.beh == bNilReceiver) {
 			c.emptyData = false
 		}
@@ -615,10 +647,14 @@ func normalise(ls *listSpec) {
 		if c.wildcard && (ls.shape == shStr || ls.shape == shBytes || ls.shape == shMap || ls.shape == shNum || ls.shape == shByte || ls.typeHelper != 2 || ls.dir != dirUnmarshal || c.pred != pNone || c.nilValue || c.nilIface || c.adjust) {
 			c.wildcard = false
 		}
-		if c.nilIface {
+		if c.nilIface && i == 0 && ls.shape == shIface && applicable(ls.dir, c.constraint) && firstNil(*ls) {
+			// on the first case the type check looks at the value: judged at list level only
+			// (a failure is due, no panic may escape)
+			c.pred = pNone
+		} else if c.nilIface {
 			if ls.shape != shIface || i == 0 {
-				// on the first case a nil interface value is indistinguishable from a type
-				// lacking the interface (the type check looks at it)
+				// a first case restricted to the other direction is left out: whether the
+				// type check should look at it is not something the statement settles
 				c.nilIface = false
 			} else {
 				// unambiguous only without an expected error; the call never reaches a
@@ -649,6 +685,9 @@ func normalise(ls *listSpec) {
 		ls.typeHelper = 1
 	}
 }
+
+// firstNil: one list in two with a nil interface value in its first case keeps it there.
+func firstNil(ls listSpec) bool { return len(ls.cases)%2 == 1 }
 
 func describe(ls listSpec) []string {
 	out := []string{fmt.Sprintf("%s on %s, %d cases, FailNow-exits=%v, TypeHelper=%d", ls.helper(), shapeNames[ls.shape], len(ls.cases), ls.goexit, ls.typeHelper)}
